@@ -150,7 +150,9 @@ impl Vtx {
             }
             let mut current_buffer_bytes_count = 0;
             while current_buffer_bytes_count < bytes_read {
-                if let Some(pos) = strings_partial_buffer[current_buffer_bytes_count..]
+                // Only bytes which were actually read are scanned: reader is allowed to return
+                // less bytes than requested and the rest of the buffer is not a part of the file
+                if let Some(pos) = strings_partial_buffer[current_buffer_bytes_count..bytes_read]
                     .iter()
                     .position(|x| *x == b'\0')
                 {
